@@ -853,11 +853,14 @@ func (x *Exec) substr(s, lo, hi string) string {
 		return s
 	}
 	n := c.fresh("sub", SStr)
-	c.assumeHere(tEq(app("slen", n), tSub(hi, lo)))
+	// only for a valid range: callers that slice (s[lo:hi]) have emitted the bounds obligation; externs that merely
+	// compute a candidate (TrimSuffix on a string shorter than the suffix) must not make the state inconsistent
+	valid := tAnd(tLe("0", lo), tLe(lo, hi), tLe(hi, app("slen", s)))
+	c.assumeHere(tImp(valid, tEq(app("slen", n), tSub(hi, lo))))
 	c.assumeHere(tForall([][2]string{{"i!s", SInt}},
-		tImp(tAnd(tLe("0", "i!s"), tLt("i!s", tSub(hi, lo))), tEq(app("sat", n, "i!s"), app("sat", s, tAdd(lo, "i!s")))),
+		tImp(tAnd(valid, tLe("0", "i!s"), tLt("i!s", tSub(hi, lo))), tEq(app("sat", n, "i!s"), app("sat", s, tAdd(lo, "i!s")))),
 		app("sat", n, "i!s")))
-	c.assumeHere(tEq(app("str!sub", s, lo, hi), n))
+	c.assumeHere(tImp(valid, tEq(app("str!sub", s, lo, hi), n)))
 	c.used["str!sub"] = true
 	return n
 }
